@@ -22,11 +22,11 @@ def diff(a, b):
     return out
 
 def worker(args):
-    name, tier, seed = args
+    name, tier, seed, fixture = args
     from vf.models import catalog
     sub = core.Sub()
     env = sx.Env(catalog.by_name(name))
-    ex = sx.Explorer(env, ops=[op for op in env.ops() if op[0] != 'qdel'])   # bulk delete bypasses the cache by design: C15
+    ex = sx.Explorer(env, fixtures=(fixture,), ops=[op for op in env.ops() if op[0] != 'qdel'])   # bulk delete bypasses the cache by design: C15
     def visit(env, fixture, hist, x):
         op = hist[-1]
         before = x.dumps[-2] if len(x.dumps) >= 2 else None
